@@ -1256,10 +1256,15 @@ impl ParserListener for Screen {
                             if let (Some(r), Some(g), Some(b)) =
                                 (attrs_list.pop(), attrs_list.pop(), attrs_list.pop())
                             {
-                                replace.insert(
-                                    key.to_string(),
-                                    format!("{:02x}{:02x}{:02x}", r, g, b),
-                                );
+                                // A component above 255 is not a colour (it would format
+                                // to more than two digits): ignore the form, like an
+                                // out-of-range palette index.
+                                if r <= 255 && g <= 255 && b <= 255 {
+                                    replace.insert(
+                                        key.to_string(),
+                                        format!("{:02x}{:02x}{:02x}", r, g, b),
+                                    );
+                                }
                             }
                         } else {
                             // consider panicing in a strict mode
